@@ -111,6 +111,16 @@ func runC04(rc *RunCtx) {
 					}
 				}
 			}
+			// a complete, valid burn message from the registered messenger that is addressed to an address which merely ends
+			// in the module's 20 bytes: not the module, so it is acknowledged without any mint
+			for tag := 1; tag <= 3; tag++ {
+				nonce++
+				in := &InMsg{Version: 0, Src: 0, Dst: 4, Nonce: nonce, Sender: Messenger(0, 0), Recipient: NearModuleRecipient(byte(16*tag + rep)), Caller: make([]byte, 32),
+					Body: BurnBody(0, Token(0), ref.Pad32(AcctBytes(tag)), big.NewInt(int64(1000+tag)), Structured32(0x44))}
+				raw := in.Bytes()
+				r := e.Exec(Tx{Msgs: msgs1(&ct.MsgReceiveMessage{From: Acct(UserIx), Message: raw, Attestation: e.Attest(raw, 0)}), Note: "C04 burn-shaped message to a near-module recipient"})
+				rc.Cov.Cell("C04_near_module", fmt.Sprintf("ok=%v/mints=%d", r.OK, len(r.Deps)))
+			}
 			// conservation so far
 			c04Conservation(e)
 		}
